@@ -51,6 +51,10 @@ class FloatNode(BaseNode, SelectNode):
         if self.value_expr: # Process expression
             with NumericalSolver(env) as s:
                 self.value_raw = s.solve(self.value_expr, self.units_raw)
+            if not self.units_raw: # node without units takes a dimensionless result
+                if not self.value_raw.baseunits.nodim:
+                    raise Exception("Expression result dimensions do not match node dimensions:", self.code)
+                self.value_raw = self.value_raw.value()
         # Testing validity of units
         if self.units_raw:
             with UnitEnvironment(env.units):
